@@ -102,8 +102,12 @@ class PartitionSim:
         self.keys = {f"{item}.uuid"}
         # loop variables ranging over the dictionaries' keys, and locals holding the item's key
         for n in ast.walk(fn.node):
-            if isinstance(n, ast.For) and isinstance(n.target, ast.Name) and unparse(n.iter) in (f"self.{live}", f"self.{dead}"):
+            if isinstance(n, ast.For) and isinstance(n.target, ast.Name) and unparse(n.iter) in (
+                    f"self.{live}", f"self.{dead}", f"self.{live}.keys()", f"self.{dead}.keys()"):
                 self.keys.add(n.target.id)
+            if isinstance(n, ast.For) and isinstance(n.target, ast.Tuple) and len(n.target.elts) == 2 and isinstance(n.target.elts[0], ast.Name) \
+                    and unparse(n.iter) in (f"self.{live}.items()", f"self.{dead}.items()"):
+                self.keys.add(n.target.elts[0].id)
 
     # ---- recognisers
     def _is_key(self, e: ast.AST) -> bool:
